@@ -193,6 +193,19 @@ def rule_constants(repo: Repo) -> RuleResult:
         else:
             r.fail(Finding("C20.constants", f, f"types:const={const}", f"when the argument is{'' if const else ' not'} a constant the type does not come from "
                            f"{'the constant' if const else 'the action signature'}"))
+    # every position gets its type: with the constant test decided, no path through one iteration may skip the store
+    r.site(f.qn + " [every position typed]")
+    pmf = L.parents_of(f)
+    loops_ = [x for st_ in stores for x in _ancestors(pmf, st_) if isinstance(x, ast.For)]
+    if not loops_:
+        raise AnalysisError("fix_grounded_predicate_types: the stores are not inside a loop over the parameter positions")
+    store_nodes = {g.node_of(st_) for st_ in stores}
+    skipped = [const for const in (True, False) if not L.must_pass_in_loop(G, {"const": const}, loops_[0], store_nodes)]
+    if skipped:
+        r.fail(Finding("C20.constants", f, "types:position-skipped", f"for an argument that is{'' if skipped[0] else ' not'} a constant some path through the loop "
+                       f"leaves the declared (super)type in place: the typed form then carries the declaration's type instead of the argument's", node=loops_[0]))
+    else:
+        r.ok({"every_position": "typed on every path"})
     # zip(declared parameters, literal parameters) in order
     r.site(f.qn + " [pairing]")
     if pair_ok:
@@ -226,7 +239,7 @@ def rule_constants(repo: Repo) -> RuleResult:
             r.ok({"numeric_leaf_constant": const, "key": "the constant's name" if const else "parameters_map[parameter]"})
         else:
             r.fail(Finding("C20.constants", h, f"leaf:const={const}", f"numeric leaf grounding is wrong when the argument is{'' if const else ' not'} a constant"))
-    r.require_sites(5)
+    r.require_sites(6)
     return r
 
 
